@@ -13,6 +13,8 @@ from fractions import Fraction
 
 import numpy as np
 
+import common
+import py2lean
 from common import Case, errname, REPO
 
 PID = 'C20'
@@ -33,6 +35,18 @@ THEOREMS = [
     'Nb.C20.truncated_multi_partial_overcount_witness',
     'Nb.C20.lax_order_preserving',
     'Nb.C20.lax_identity_of_sorted_keys',
+    'Nb.C20.loadSites_eq_load',
+    'Nb.C20.call_sites_agree',
+    'Nb.C20.header_copy_same_indices',
+    'Nb.C20.copy_must_keep_strict_witness',
+    'Nb.C20.fp_scaling_formula',
+    'Nb.C20.fp_zero_scale_totalised_witness',
+    'Nb.C20.scaled_value_own_record',
+    'Nb.C20.vol_numbers_translated_eq_model',
+    'Nb.C20.strictKey_from_source',
+    'Nb.C20.diffusionKeys_from_source',
+    'Nb.C20.dynamicKeys_from_source',
+    'Nb.C20.sort_stage_keys_from_source',
 ]
 ASSUMPTIONS = [
     'hand-written Lean model of nibabel/parrec.py sorting/trimming/scaling/label logic (Model/C20.lean), tied '
@@ -57,6 +71,112 @@ RULE = ('data sets: versions V4/V4.1/V4.2 x 2-5 slices x up to 3 echoes x 3 dyna
         '(V4-like diffusion), missing whole volumes, wrong maxima. A case is non-trivial when it has >1 volume or '
         'is truncated; distinct by (cfg, records in file order, flags). read stream: for about half of the load cases (always for canonical / slice-major / volume-shuffled untruncated files) 5 index tuples read through the proxy (`[..., k]`, strided and negative slices, int+slice mixes, a few out-of-range ints), scaled and unscaled. spec stream: the specification predicate `complete` and the hypotheses of truncated_exactly_full_volumes (model) against the by-label analysis of the harness, and the conclusion of the theorem on the real loader whenever the hypotheses hold. helper stream: vol_numbers / vol_is_full on '
         'random slice-number lists.')
+
+# ------------------------------------------------------------------ regen (Generated/C20Funcs.lean)
+
+GEN_PATH = os.path.join(common.VERIF, 'lean', 'NibabelModel', 'Generated', 'C20Funcs.lean')
+GEN_FUNCS = [('vol_numbers', 'vol_numbers')]
+
+
+def _lean_str_list(xs):
+    return '[' + ', '.join('"%s"' % x.replace('\\', '\\\\').replace('"', '\\"') for x in xs) + ']'
+
+
+def _tuple_terms(node):
+    """`(a, b) + c + (d,)` -> ['a', 'b', '+c', 'd'] (source text of every lexsort key, in tuple order;
+    a name that is concatenated as a whole tuple is prefixed with '+')"""
+    import ast
+    if isinstance(node, ast.BinOp) and isinstance(node.op, ast.Add):
+        return _tuple_terms(node.left) + _tuple_terms(node.right)
+    if isinstance(node, ast.Tuple):
+        return [ast.unparse(e) for e in node.elts]
+    return ['+' + ast.unparse(node)]
+
+
+def source_tables():
+    """Tables read off the CURRENT source of nibabel/parrec.py with `ast` (no execution):
+    the lexsort key tuples of _strict_sort_order / _lax_sort_order, the field behind every key variable,
+    `dynamic_keys` of get_volume_labels, the image-definition fields of every PAR version."""
+    import ast
+    import importlib
+    import inspect
+    import textwrap
+    from nibabel import parrec
+    importlib.reload(parrec)
+
+    def fn_ast(f):
+        return ast.parse(textwrap.dedent(inspect.getsource(f))).body[0]
+
+    def assigns(fn, name):
+        return [n.value for n in ast.walk(fn) if isinstance(n, ast.Assign) and len(n.targets) == 1 and
+                isinstance(n.targets[0], ast.Name) and n.targets[0].id == name]
+
+    def lexsort_args(fn):
+        return [n.args[0] for n in ast.walk(fn) if isinstance(n, ast.Call) and ast.unparse(n.func) == 'np.lexsort']
+
+    strict = fn_ast(parrec.PARRECHeader._strict_sort_order)
+    lax = fn_ast(parrec.PARRECHeader._lax_sort_order)
+    labels = fn_ast(parrec.PARRECHeader.get_volume_labels)
+    t = {}
+    (keys,) = assigns(strict, 'keys')
+    t['strictKeysSrc'] = _tuple_terms(keys)
+    # field behind each variable: `x = idefs['f']`, `x = self.get_def('f')` (first assignment; the V4
+    # fallback `bvals = self.get_def('diffusion_b_factor')` is the second one of `bvals`)
+    var_field, fallback = [], []
+    for n in ast.walk(strict):
+        if isinstance(n, ast.Assign) and len(n.targets) == 1 and isinstance(n.targets[0], ast.Name):
+            v, name = n.value, n.targets[0].id
+            field = None
+            if isinstance(v, ast.Subscript) and ast.unparse(v.value) == 'idefs' and isinstance(v.slice, ast.Constant):
+                field = v.slice.value
+            elif isinstance(v, ast.Call) and ast.unparse(v.func) == 'self.get_def' and isinstance(v.args[0], ast.Constant):
+                field = v.args[0].value
+            if field is not None:
+                (fallback if name in [k for k, _ in var_field] else var_field).append((name, field))
+    t['strictVarField'] = var_field
+    t['strictVarFallback'] = fallback
+    dk = [_tuple_terms(v) for v in assigns(strict, 'diffusion_keys')]
+    t['diffusionKeysAlts'] = dk                       # in source order: no b-vectors / with b-vectors / none
+    ak = [n for n in ast.walk(strict) if isinstance(n, ast.Assign) and ast.unparse(n.targets[0]) == 'asl_keys']
+    (ak,) = ak
+    t['aslKeysSrc'] = ast.unparse(ak.value)
+    args = lexsort_args(strict)
+    t['stage2KeysSrc'] = _tuple_terms(args[-1])
+    (lk,) = assigns(lax, 'keys')
+    t['laxKeysSrc'] = _tuple_terms(lk)
+    (dyn,) = [v for v in assigns(labels, 'dynamic_keys') if isinstance(v, ast.List)]
+    t['dynamicKeysSrc'] = [e.value for e in dyn.elts]
+    wanted = set(t['dynamicKeysSrc']) | {f for _, f in var_field + fallback}
+    t['fields'] = {ver: [item[0] for item in parrec.image_def_dtds[ver] if item[0] in wanted]
+                   for ver in ('V4', 'V4.1', 'V4.2')}
+    return t
+
+
+def regen():
+    """vol_numbers translated statement by statement from the CURRENT parrec.py (py2lean), and the sort-key /
+    label-key tables read off the source, into Generated/C20Funcs.lean"""
+    import importlib
+    from nibabel import parrec
+    importlib.reload(parrec)
+    hdr = ('/-! GENERATED by harness/props/c20.py regen() from the working tree of nibabel (nibabel/parrec.py):\n'
+           '    `vol_numbers` translated with harness/py2lean.py; key tables read off the source with `ast`.\n'
+           '    Do not edit: rewritten on every run of `./check C20`. Core Lean only. -/')
+    text = py2lean.translate_functions([(getattr(parrec, py), ln) for py, ln in GEN_FUNCS], 'Nb.Gen.C20F', hdr, {})
+    t = source_tables()
+    tab = ['', '/-! ### tables read off the source -/', 'namespace Nb.Gen.C20T', '']
+    for name in ('strictKeysSrc', 'stage2KeysSrc', 'laxKeysSrc', 'dynamicKeysSrc'):
+        tab.append('def %s : List String := %s' % (name, _lean_str_list(t[name])))
+    tab.append('def aslKeysSrc : String := "%s"' % t['aslKeysSrc'].replace('"', '\\"'))
+    for name in ('strictVarField', 'strictVarFallback'):
+        tab.append('def %s : List (String × String) := [%s]' % (
+            name, ', '.join('("%s", "%s")' % kv for kv in t[name])))
+    tab.append('def diffusionKeysAlts : List (List String) := [%s]' % ', '.join(_lean_str_list(x) for x in t['diffusionKeysAlts']))
+    for ver, nm in (('V4', 'fieldsV4'), ('V4.1', 'fieldsV41'), ('V4.2', 'fieldsV42')):
+        tab.append('def %s : List String := %s' % (nm, _lean_str_list(t['fields'][ver])))
+    tab += ['', 'end Nb.Gen.C20T', '']
+    common.write_if_changed(GEN_PATH, text.rstrip('\n') + '\n' + '\n'.join(tab))
+    return ['Generated.C20Funcs.vol_numbers', 'Generated.C20Funcs.tables']
+
 
 def _r(sl, dy, pl):
     return [sl, 1, dy, 1, 0, 2, 1, 1, 1, 0, 1, 1, pl]
@@ -154,12 +274,20 @@ def par_text(d):
             it[33] = '%d.00' % r[F['bval']]          # diffusion_b_factor is the b-value key of V4 files
         else:
             it[41], it[42] = str(r[F['bval']]), str(r[F['grad']])
+            it[33] = '%d.00' % bfactor(ver, r)       # the same for every slice of a volume (get_bvals_bvecs)
+            it[45], it[46], it[47] = ('%.3f' % (0.1 * r[F['grad']]), '%.3f' % (0.2 * r[F['bval']]), '0.500')
         if ver == 42:
             it[48] = str(r[F['label']])
         out.append('  ' + '  '.join(it))
     out.append('')
     out.append('# === END OF DATA DESCRIPTION FILE ===============================================')
     return '\n'.join(out) + '\n'
+
+
+def bfactor(ver, r):
+    """diffusion_b_factor written for a record: V4 files have only this column (it is their b-value sort key);
+    later versions get a value determined by the volume's diffusion labels"""
+    return r[F['bval']] if ver == 40 else 100 * r[F['bval']] + r[F['grad']]
 
 
 def rec_bytes(d):
@@ -181,6 +309,8 @@ def mk_case(d, stream):
     nvol = len({_label_tuple(d, r) for r in d['recs']})
     trivial = nvol <= 1 and not d.get('dropped')
     key = None if trivial else (cfg, recs, d['strict'], d['permit'], d['scaling'])
+    if key is not None and (d.get('via', 'par') != 'par' or d.get('mmap', False) is not False):
+        key = key + (d.get('via', 'par'), str(d.get('mmap', False)))
     return Case(line, d, key, stream)
 
 
@@ -261,7 +391,16 @@ def mk_helper(op, smax, sl):
     return Case(line, {'op': op, 'smax': smax, 'sl': list(sl), 'stream': 'helper'}, (op, smax, tuple(sl)), 'helper')
 
 
+def mk_gen(sl):
+    """the TRANSLATED vol_numbers (Generated/C20Funcs.lean) against the real one"""
+    sls = ','.join(map(str, sl)) if sl else '-'
+    return Case('C20 gen vol_numbers %s' % sls, {'op': 'gen', 'fn': 'vol_numbers', 'sl': list(sl), 'stream': 'gen'},
+                ('gen', tuple(sl)), 'gen')
+
+
 def case_from_data(d):
+    if d.get('op') == 'gen':
+        return mk_gen(d['sl'])
     if d.get('op') in ('volnos', 'isfull'):
         return mk_helper(d['op'], d['smax'], d['sl'])
     if d.get('op') == 'read':
@@ -301,7 +440,8 @@ def gen_dataset(rng, ver=None, max_vols=8):
         if 2 <= nv <= max_vols or (nv == 1 and rng.random() < 0.05):
             break
     bvals = [0, 1000][:B] if ver == 40 else list(range(1, B + 1))
-    scale_mode = rng.choice(['record', 'record', 'volume', 'itype'])
+    scale_mode = rng.choice(['record', 'record', 'volume', 'itype', 'uni-slope', 'uni-ss', 'uni-rs', 'uni-inter'])
+    uni = scales0 = None
     seq_of_echo = {e: rng.choice([0, 2, 2, 4]) for e in range(1, E + 1)}
     payloads = rng.sample(range(1, 60000), S * nv)
     recs = []
@@ -309,6 +449,19 @@ def gen_dataset(rng, ver=None, max_vols=8):
 
     def scales():
         return [rng.randint(-30, 30), rng.randint(1, 12), rng.randint(1, 12)]
+    uni = scales()          # the factors shared by all records in the 'uni-*' modes
+
+    def scales_uni():
+        """ONE slope for the whole file but varying intercepts (and the other way round): dv slope = RS,
+        fp slope = 1/SS, fp intercept = RI/(RS*SS)"""
+        ri, rs, ss = scales()
+        if scale_mode == 'uni-slope':
+            return [ri, uni[1], uni[2]]
+        if scale_mode == 'uni-ss':
+            return [ri, rs, uni[2]]
+        if scale_mode == 'uni-rs':
+            return [ri, uni[1], ss]
+        return [uni[0], rs, ss]
     for ty in T:
         for dy in range(1, D + 1):
             for lb in range(1, L + 1):
@@ -322,6 +475,8 @@ def gen_dataset(rng, ver=None, max_vols=8):
                                         sc = scales()
                                     elif scale_mode == 'volume':
                                         sc = vol_scale.setdefault(vk, scales())
+                                    elif scale_mode.startswith('uni-'):
+                                        sc = scales_uni()
                                     else:
                                         sc = ty_scale.setdefault(ty, scales())
                                     recs.append([sl, ec, dy, ph, ty, seq_of_echo[ec], bv, gr, lb] + list(sc) +
@@ -330,7 +485,12 @@ def gen_dataset(rng, ver=None, max_vols=8):
     return d
 
 
-ORDERS = ('canonical', 'reversed', 'slice-major', 'interleaved', 'volumes-shuffled', 'random', 'random')
+ORDERS = ('canonical', 'reversed', 'slice-major', 'interleaved', 'volumes-shuffled', 'random', 'random',
+          'first-fixed-random', 'first-volume-fixed', 'last-pair-swapped', 'interleaved-volumes')
+# unsorted orders whose FIRST record is the first-sorting one (and, for some, whose index list is ascending or
+# sequential up to the very end): the orders a too-weak "can read straight from the REC file" test accepts
+FIRST_IN_PLACE = ('slice-major', 'interleaved', 'first-fixed-random', 'first-volume-fixed', 'last-pair-swapped',
+                  'interleaved-volumes')
 
 
 def reorder(rng, d, kind):
@@ -349,7 +509,43 @@ def reorder(rng, d, kind):
         recs = [r for v in vols for r in (v[::-1] if desc else v)]
     elif kind == 'random':
         rng.shuffle(recs)
+    elif kind == 'first-fixed-random':
+        rest = recs[1:]
+        rng.shuffle(rest)
+        recs = recs[:1] + rest
+    elif kind == 'first-volume-fixed':
+        rest = vols[1:]
+        if len(rest) > 1:
+            while True:
+                perm = rest[:]
+                rng.shuffle(perm)
+                if perm != rest:
+                    break
+            rest = perm
+        elif rest:
+            rest = [rest[0][::-1]]
+        recs = [r for v in vols[:1] + rest for r in v]
+    elif kind == 'last-pair-swapped':
+        if len(recs) >= 2:
+            recs[-1], recs[-2] = recs[-2], recs[-1]
+    elif kind == 'interleaved-volumes':       # even volumes first, then the odd ones; slices in order
+        recs = [r for v in vols[0::2] + vols[1::2] for r in v]
     return recs
+
+
+VIAS = ('par', 'par', 'par', 'rec', 'lower', 'filemap', 'nibload')
+MMAPS = (False, False, True, 'c', 'r')
+
+
+def _how(rng):
+    """how the pair is opened: by PAR name / REC name / lower-case extensions / from_file_map / nibabel.load,
+    and the proxy's mmap mode — none of them may matter"""
+    h = {}
+    if rng.random() < 0.3:
+        h['via'] = rng.choice(VIAS)
+    if rng.random() < 0.3:
+        h['mmap'] = rng.choice(MMAPS)
+    return {k: v for k, v in h.items() if (k, v) not in (('via', 'par'), ('mmap', False))}
 
 
 def variants(rng, base, tier, n_orders):
@@ -376,15 +572,51 @@ def variants(rng, base, tier, n_orders):
                 scaling = rng.choice(['dv', 'fp'])
                 permit = 1 if (k and rng.random() < 0.9) else rng.choice([0, 1])
                 d = dict(base, recs=kept, strict=strict, permit=permit, scaling=scaling, order=kind,
-                         dropped=k, drop_mode=mode if k else None)
+                         dropped=k, drop_mode=mode if k else None, **_how(rng))
                 out.append(mk_case(d, 'main' if not k else 'truncated'))
                 if strict and rng.random() < 0.5:
                     out.append(mk_spec_case(d))
-                # sliced reads through the proxy; always for the orders that keep the first and the last
+                # sliced reads through the proxy; always for the orders that keep the first (and the last)
                 # record in place without being sorted
-                if rng.random() < (1.0 if (kind in ('slice-major', 'volumes-shuffled', 'canonical') and not k) else 0.35):
+                always = kind in FIRST_IN_PLACE + ('volumes-shuffled', 'canonical') and not k
+                if rng.random() < (1.0 if always else 0.6 if kind in FIRST_IN_PLACE else 0.35):
                     nvol = max(1, (len(kept) // S) if S else 1)
                     out.append(mk_read_case(d, gen_slicers(rng, S, nvol, 5)))
+    return out
+
+
+def trunc_mid_cases(rng, base):
+    """strict_sort + permit_truncated with ONE incomplete volume that is NOT the last one in label order:
+    the volumes are written reversed / shuffled (slices ascending, descending or interleaved inside a volume)
+    and the recording loses 1..S-1 records at its end"""
+    S = base['max'][0]
+    recs = list(base['recs'])
+    vols = [recs[i:i + S] for i in range(0, len(recs), S)]
+    if len(vols) < 2:
+        return []
+    out = []
+    for _ in range(2):
+        order = rng.choice(['reversed', 'shuffled', 'last-first'])
+        vs = [list(v) for v in vols]
+        if order == 'reversed':
+            vs.reverse()
+        elif order == 'last-first':
+            vs = vs[-1:] + vs[:-1]
+        else:
+            rng.shuffle(vs)
+        if vs[-1] == vols[-1]:          # the file's last volume must not be the last one in label order
+            vs = vs[-1:] + vs[:-1]
+        inner = rng.choice(['asc', 'desc', 'inter'])
+        vs = [v if inner == 'asc' else v[::-1] if inner == 'desc' else v[0::2] + v[1::2] for v in vs]
+        flat = [r for v in vs for r in v]
+        k = rng.randint(1, S - 1)
+        kept = flat[:len(flat) - k]
+        for scaling in ('dv', 'fp'):
+            d = dict(base, recs=kept, strict=1, permit=1, scaling=scaling, order='trunc-mid:%s:%s' % (order, inner),
+                     dropped=k, drop_mode='tail', **_how(rng))
+            out.append(mk_case(d, 'trunc-mid'))
+        out.append(mk_spec_case(d))
+        out.append(mk_read_case(d, gen_slicers(rng, S, max(1, len(vs) - 1), 4)))
     return out
 
 
@@ -439,12 +671,17 @@ def cases(rng, tier):
         ver = [42, 41, 40][i % 3] if i < 6 else None
         base = gen_dataset(rng, ver=ver, max_vols=maxv)
         out.extend(variants(rng, base, tier, n_orders))
+        if i % 2 == 0:
+            out.extend(trunc_mid_cases(rng, base))
     out.extend(edge_cases(rng, n_edge))
     for _ in range(n_edge // 2):        # vol_numbers / vol_is_full themselves
         smax = rng.randint(1, 4)
         sl = [rng.randint(1, smax) if rng.random() < 0.95 else rng.choice([0, smax + 1])
               for _ in range(rng.randint(0, 10))]
         out.append(mk_helper(rng.choice(['volnos', 'isfull']), smax, sl))
+    for _ in range(n_edge // 2):        # the translated vol_numbers: any ints (negative, large, repeated)
+        pool = rng.choice([[1, 2, 3], [0, 1], [-2, 5, 7, 10 ** 6], list(range(1, 9))])
+        out.append(mk_gen([rng.choice(pool) for _ in range(rng.randint(0, 14))]))
     return out
 
 
@@ -466,22 +703,82 @@ def _rat(x):
     return 'x' + x.hex()
 
 
+def _exts(d):
+    return ('.par', '.rec') if d.get('via') == 'lower' else ('.PAR', '.REC')
+
+
+def _write_pair(d, base):
+    pe, re_ = _exts(d)
+    with open(base + pe, 'w') as f:
+        f.write(par_text(d))
+    with open(base + re_, 'wb') as f:
+        f.write(rec_bytes(d))
+
+
+def _open_image(d, base):
+    """open the pair the way `d['via']` says (default: parrec.load on the PAR name), proxy mmap mode d['mmap']"""
+    import nibabel
+    from nibabel import parrec
+    pe, re_ = _exts(d)
+    kw = dict(permit_truncated=bool(d['permit']), scaling=d['scaling'], strict_sort=bool(d['strict']),
+              mmap=d.get('mmap', False))
+    via = d.get('via', 'par')
+    if via == 'rec':
+        return parrec.load(base + re_, **kw)
+    if via == 'filemap':
+        return parrec.PARRECImage.from_file_map(parrec.PARRECImage.filespec_to_file_map(base + pe), **kw)
+    if via == 'nibload':
+        return nibabel.load(base + pe, **kw)
+    return parrec.load(base + pe, **kw)
+
+
+def _header_consistency(img, d):
+    """the index list / scaling / labels / shape of `img.header`, of a further copy() of it and of a header read
+    straight from the PAR text must be the same objects' worth of information"""
+    from nibabel import parrec
+    import io
+    hdr = img.header
+    others = [('header.copy()', hdr.copy())]
+    others.append(('PARRECHeader.from_fileobj', parrec.PARRECHeader.from_fileobj(
+        io.StringIO(par_text(d)), permit_truncated=bool(d['permit']), strict_sort=bool(d['strict']))))
+    ref_idx = [int(i) for i in hdr.get_sorted_slice_indices()]
+    ref_sc = [np.asarray(a).tobytes() for a in hdr.get_data_scaling(d['scaling'])]
+    ref_lab = [(k, [int(x) for x in v]) for k, v in hdr.get_volume_labels().items()]
+    for name, h in others:
+        if [int(i) for i in h.get_sorted_slice_indices()] != ref_idx:
+            return 'header: get_sorted_slice_indices() of %s differs from img.header' % name
+        if [np.asarray(a).tobytes() for a in h.get_data_scaling(d['scaling'])] != ref_sc:
+            return 'header: get_data_scaling() of %s differs from img.header' % name
+        if [(k, [int(x) for x in v]) for k, v in h.get_volume_labels().items()] != ref_lab:
+            return 'header: get_volume_labels() of %s differs from img.header' % name
+        if tuple(h.get_data_shape()) != tuple(hdr.get_data_shape()) or h.strict_sort != hdr.strict_sort or \
+                h.permit_truncated != hdr.permit_truncated:
+            return 'header: shape / flags of %s differ from img.header' % name
+    if tuple(img.shape) != tuple(hdr.get_data_shape()):
+        return 'header: img.shape %s, header shape %s' % (img.shape, hdr.get_data_shape())
+    return None
+
+
+def _bvals(hdr):
+    try:
+        bvals, bvecs = hdr.get_bvals_bvecs()
+    except Exception as e:
+        return errname(e), None
+    return (None if bvals is None else [float(v) for v in bvals],
+            None if bvecs is None else np.asarray(bvecs, dtype='<f8').tobytes().hex())
+
+
 def observe(d):
     """Load the PAR/REC pair of `d` with the real code; returns a dict of observables (or {'err': ..})"""
     import warnings
-    from nibabel import parrec
     _COUNTER[0] += 1
     base = os.path.join(_tmpdir(), 'c%d_%d' % (os.getpid(), _COUNTER[0]))
     try:
-        with open(base + '.PAR', 'w') as f:
-            f.write(par_text(d))
-        with open(base + '.REC', 'wb') as f:
-            f.write(rec_bytes(d))
+        _write_pair(d, base)
         with warnings.catch_warnings():
             warnings.simplefilter('ignore')
             try:
-                img = parrec.load(base + '.PAR', permit_truncated=bool(d['permit']), scaling=d['scaling'],
-                                  strict_sort=bool(d['strict']), mmap=False)
+                img = _open_image(d, base)
                 hdr = img.header
                 shape = tuple(int(v) for v in img.shape)
                 idx = [int(i) for i in hdr.get_sorted_slice_indices()]
@@ -499,7 +796,12 @@ def observe(d):
                 for k in range(sslabs.shape[2]):
                     u = np.unique(sslabs[:, :, k])
                     scaled_vals.append(float(u[0]) if len(u) == 1 else None)
+                psc = getattr(img.dataobj, '_slice_scaling', None)      # the proxy's own scaling arrays
+                bvals, bvecs = _bvals(hdr)
                 return {
+                    'pslopes': None if psc is None else [float(v) for v in np.asarray(psc[0]).ravel(order='F')],
+                    'pinters': None if psc is None else [float(v) for v in np.asarray(psc[1]).ravel(order='F')],
+                    'hdr_problem': _header_consistency(img, d), 'bvals': bvals, 'bvecs': bvecs,
                     'shape': shape, 'idx': idx, 'data': data,
                     'slopes': [float(v) for v in np.asarray(slopes).ravel(order='F')],
                     'inters': [float(v) for v in np.asarray(inters).ravel(order='F')],
@@ -511,7 +813,7 @@ def observe(d):
             except Exception as e:
                 return {'err': errname(e)}
     finally:
-        for ext in ('.PAR', '.REC'):
+        for ext in _exts(d):
             try:
                 os.unlink(base + ext)
             except OSError:
@@ -522,9 +824,11 @@ def obs_line(o):
     if 'err' in o:
         return o['err']
     labels = '|'.join('%s:[%s]' % (k, ','.join(map(str, v))) for k, v in o['labels']) or '-'
-    return 'ok shape=[%s] idx=[%s] data=[%s] slope=[%s] inter=[%s] labels=%s' % (
+    def rats(vs):
+        return '?' if vs is None else ','.join(_rat(v) for v in vs)
+    return 'ok shape=[%s] idx=[%s] data=[%s] slope=[%s] inter=[%s] pslope=[%s] pinter=[%s] labels=%s' % (
         ','.join(map(str, o['shape'][2:])), ','.join(map(str, o['idx'])), ','.join(map(str, o['data'])),
-        ','.join(_rat(v) for v in o['slopes']), ','.join(_rat(v) for v in o['inters']), labels)
+        rats(o['slopes']), rats(o['inters']), rats(o['pslopes']), rats(o['pinters']), labels)
 
 
 def impl_helper(d):
@@ -550,7 +854,17 @@ def oracle_helper(d, out):
     return None if out == want else 'helper: %s(%s) = %s, expected %s' % (d['op'], sl, out, want)
 
 
+def impl_gen(d):
+    from nibabel import parrec
+    try:
+        return '[%s]' % ','.join(str(int(v)) for v in parrec.vol_numbers(list(d['sl'])))
+    except Exception as e:
+        return errname(e)
+
+
 def impl(case):
+    if case.data.get('op') == 'gen':
+        return impl_gen(case.data)
     if case.data.get('op') in ('volnos', 'isfull'):
         return impl_helper(case.data)
     if case.data.get('op') == 'spec':
@@ -650,19 +964,14 @@ def _axis_positions(it, n):
 def observe_read(d):
     """sliced reads through the proxy: {'err':..} or {'line', 'results', 'whole', 'shape', ...}"""
     import warnings
-    from nibabel import parrec
     _COUNTER[0] += 1
     base = os.path.join(_tmpdir(), 'r%d_%d' % (os.getpid(), _COUNTER[0]))
     try:
-        with open(base + '.PAR', 'w') as f:
-            f.write(par_text(d))
-        with open(base + '.REC', 'wb') as f:
-            f.write(rec_bytes(d))
+        _write_pair(d, base)
         with warnings.catch_warnings():
             warnings.simplefilter('ignore')
             try:
-                img = parrec.load(base + '.PAR', permit_truncated=bool(d['permit']), scaling=d['scaling'],
-                                  strict_sort=bool(d['strict']), mmap=False)
+                img = _open_image(d, base)
                 hdr = img.header
                 shape = tuple(int(v) for v in img.shape)
                 whole = np.asarray(img.dataobj)
@@ -675,7 +984,7 @@ def observe_read(d):
             S = shape[2]
             V = shape[3] if len(shape) > 3 else 1
             K = np.broadcast_to(np.arange(S * V).reshape((1, 1) + shape[2:], order='F'), shape)
-            results, texts, raws = [], [], []
+            results, texts, raws, slicer_problem = [], [], [], None
             for sl in d['slicers']:
                 idx = _to_index(sl)
                 try:
@@ -686,6 +995,15 @@ def observe_read(d):
                     raws.append(None)
                     continue
                 results.append(res)
+                # the same read through img.slicer (spatial axes sliced, not indexed); refusals are its business
+                ex_ = _expand(idx, len(shape))
+                if slicer_problem is None and all(isinstance(it, slice) for it in ex_[:3]) and res.size:
+                    try:
+                        sub = np.asarray(img.slicer[idx].dataobj)
+                    except Exception:
+                        sub = None
+                    if sub is not None and (sub.shape != res.shape or not np.array_equal(sub, res)):
+                        slicer_problem = 'partial: img.slicer[%s] differs from dataobj[%s]' % (sl, sl)
                 raw = None
                 if hasattr(img.dataobj, '_get_unscaled'):
                     try:
@@ -715,9 +1033,9 @@ def observe_read(d):
                 except Exception:
                     texts.append('[?shape=%s]' % (res.shape,))
             return {'line': 'ok r=' + '|'.join(texts), 'results': results, 'raws': raws, 'whole': whole,
-                    'raw_whole': raw_whole, 'shape': shape}
+                    'raw_whole': raw_whole, 'shape': shape, 'slicer_problem': slicer_problem}
     finally:
-        for ext in ('.PAR', '.REC'):
+        for ext in _exts(d):
             try:
                 os.unlink(base + ext)
             except OSError:
@@ -732,6 +1050,8 @@ def oracle_read(case, out):
     if 'err' in o:
         return None                      # loading itself is judged by the load case of the same data set
     whole, raw_whole, shape = o['whole'], o['raw_whole'], o['shape']
+    if o.get('slicer_problem'):
+        return o['slicer_problem']
     exp_nvol, expected = expected_records(d)
     E = None
     S = d['max'][0]
@@ -782,6 +1102,10 @@ def oracle(case, out):
             if o['data'] != pl:
                 return 'theorem-instance: loader kept %s, the complete label sets are %s' % (o['data'], pl)
         return None
+    if d.get('op') == 'gen':
+        sl = d['sl']
+        want = '[%s]' % ','.join(str(sl[:i].count(v)) for i, v in enumerate(sl))
+        return None if out == want else 'gen: vol_numbers(%s) = %s, expected %s' % (sl, out, want)
     if d.get('op') in ('volnos', 'isfull'):
         return oracle_helper(d, out)
     o = case.extra if case.extra is not None and obs_line(case.extra) == out else observe(d)
@@ -822,6 +1146,11 @@ def oracle(case, out):
             problems.append('scaling: output slice %d holds record payload %d but slope/intercept (%r, %r) are not '
                             'its own (%r, %r)' % (k, p, o['slopes'][k], o['inters'][k], es, ei))
             break
+        if o['pslopes'] is not None and (len(o['pslopes']) != len(data) or o['pslopes'][k] != es or
+                                         o['pinters'][k] != ei):
+            problems.append('scaling: the scaling arrays of the array proxy are not the own-record factors at '
+                            'output slice %d (payload %d)' % (k, p))
+            break
         want = float(np.float64(p) * np.float64(es) + np.float64(ei))
         got = o['scaled'][k]
         if got is None or abs(got - want) > 1e-9 * max(1.0, abs(want)):
@@ -846,6 +1175,14 @@ def oracle(case, out):
                     % (k, k % S, k // S, data[k], exp_data[k]))
     if problems:
         return problems[0]
+    if o.get('hdr_problem'):
+        return o['hdr_problem']
+    # ---- b values (diffusion): one per output volume, the b factor of that volume's records
+    if d['diffusion'] and expected is not None and exp_nvol > 1 and not dup:
+        want_b = [float(bfactor(d['ver'], expected[v * S])) for v in range(exp_nvol)]
+        same_within = all(len({bfactor(d['ver'], r) for r in expected[v * S:(v + 1) * S]}) == 1 for v in range(exp_nvol))
+        if same_within and o['bvals'] != want_b:
+            return 'bvals: get_bvals_bvecs()[0] = %s, the volumes hold b factors %s' % (o['bvals'], want_b)
     # ---- labels: one entry per output volume, the value of the record at slice 1 of that volume;
     #      keys = label fields with more than one value in the data set
     names = ['phase', 'echo'] + (['label'] if d['ver'] == 42 else []) + ['itype', 'dyn', 'seq'] + \
@@ -864,7 +1201,8 @@ def oracle(case, out):
         ref = observe(ref_d)
         if 'err' in ref:
             return 'invariance: label-ordered file raises %s, this order loads' % ref['err']
-        for name in ('shape', 'data', 'slopes', 'inters', 'labels', 'affine', 'zooms', 'scaled'):
+        for name in ('shape', 'data', 'slopes', 'inters', 'pslopes', 'pinters', 'labels', 'affine', 'zooms', 'scaled',
+                     'bvals', 'bvecs'):
             if ref[name] != o[name]:
                 return 'invariance: %s differs from the load of the same records in label order' % name
     return None
@@ -901,6 +1239,8 @@ def _global_check_passes(d):
 def signature(case, what):
     d = case.data
     what = str(what)
+    if d.get('op') == 'gen':
+        return 'parrec:gen:' + d.get('fn', '')
     if d.get('op') in ('volnos', 'isfull'):
         return 'parrec:helper:' + d['op']
     if d.get('op') == 'read':
@@ -925,6 +1265,10 @@ def signature(case, what):
 
 def shrink_candidates(case):
     d0 = case.data
+    if d0.get('op') == 'gen':
+        for i in range(len(d0['sl'])):
+            yield mk_gen(d0['sl'][:i] + d0['sl'][i + 1:])
+        return
     if d0.get('op') in ('volnos', 'isfull'):
         for i in range(len(d0['sl'])):
             yield mk_helper(d0['op'], d0['smax'], d0['sl'][:i] + d0['sl'][i + 1:])
